@@ -110,8 +110,10 @@ def gen_body(rng, objs, focus, nops, can_spawn, bidx, nbodies):
                 key = rng.randrange(4)
                 val = rng.randrange(1, 9)
                 c = rng.choice(["dins", "dins", "dins", "dget", "dget", "drem", "dlen", "dcon", "dalt", "dent", "dret", "dclr", "dit", "dit",
-                                "dref", "dmut", "dtry"])
-                if c in ("dins", "dalt", "dent", "dmut"):
+                                "dref", "dmut", "dtry", "drif", "drif", "drim", "dvw"])
+                if c in ("drif", "drim"):
+                    ops.append("%s.%d.%d.%d" % (c, o, key, rng.randrange(2)))
+                elif c in ("dins", "dalt", "dent", "dmut"):
                     ops.append("%s.%d.%d.%d" % (c, o, key, val))
                 elif c == "dret":
                     ops.append("dret.%d.%d.%d" % (o, rng.choice([1, 2, 3]), rng.randrange(3)))
